@@ -5,7 +5,7 @@ import shutil
 import tempfile
 import threading
 
-from pyvc.unit import unit
+from pyvc.unit import bare, unit
 
 SES = "androguard/session.py"
 META = {
@@ -58,7 +58,7 @@ class Sched:
 
     def run(self, step, fn):
         with self.cv:
-            ok = self.cv.wait_for(lambda: self.pos < len(self.order) and self.order[self.pos] == step, timeout=120)
+            ok = self.cv.wait_for(lambda: self.pos < len(self.order) and self.order[self.pos] == step, timeout=40)
             if not ok:
                 raise RuntimeError("scheduler timeout at %r" % (step,))
         try:
@@ -143,7 +143,7 @@ def schedules_on_real_code(U, chunk):
             with lock:
                 # each constructor sees its own gated `dataset`; creation of the object itself is not the racy part
                 pass
-            s = object.__new__(ses.Session)
+            s = bare(ses.Session)
             saved = ses.dataset
             # per-thread gate: patch through a thread-local dispatcher
             tl.ds = _DS(i)
